@@ -12,9 +12,9 @@ Import ListNotations.
 Open Scope N_scope.
 
 (* ---------------------------------------------------------------- names *)
-Lemma str_eqb_eq a b : str_eqb a b = true -> a = b.
+Lemma str_eqb_eq : forall a b, str_eqb a b = true -> a = b.
 Proof.
-  revert b. induction a as [|x a IH]; intros [|y b]; cbn [str_eqb]; try discriminate; [reflexivity|].
+  intros a b. revert b. induction a as [|x a IH]; intros [|y b]; cbn [str_eqb]; try discriminate; [reflexivity|].
   intros H. apply andb_prop in H. destruct H as [H1 H2]. apply N.eqb_eq in H1. subst y. f_equal. exact (IH _ H2).
 Qed.
 Lemma str_eqb_refl a : str_eqb a a = true.
